@@ -396,6 +396,25 @@ func init() {
 			cb.CbFailAt = 6
 			add("many/cbfail/walk", cb, k1, w1)
 		}
+		// 7d. encoded / text output larger than an I/O buffer (4096 bytes) with a writer that fails: an error can surface
+		// in the middle of a root and again at a later flush
+		{
+			big := ""
+			for r := 0; r < 3; r++ {
+				big += fmt.Sprintf("- big%d\n", r)
+				for i := 0; i < 48; i++ {
+					big += fmt.Sprintf("  - c%d-%03d-%s\n", r, i, strings.Repeat("x", 80))
+				}
+			}
+			for _, op := range []string{"out-json", "out-yaml", "out-dry", "out-text"} {
+				for _, at := range []int{1, 2} {
+					d := NewDrv(op, big)
+					d.WriterFailAt = at
+					d.NoYield = op == "out-text"
+					add(fmt.Sprintf("bigout/writerfail/%s/at%d", op, at), d, k1, w2)
+				}
+			}
+		}
 		// 8. # heading roots (the parser flag shared by all generator workers)
 		add("sharp/out-text", NewDrv("out-text", "# a\n# b\n"), k1, w2)
 		return out
